@@ -343,6 +343,68 @@ func c18Storage(c *Ctx) {
 	}
 	kg, ks := keyExpr(g), keyExpr(s)
 	c.Check(kg != "" && kg == ks, "storage-key-derivation", "Get/Set database key", p.Pos(g.Pos()), "both use "+kg, "Get and Set derive the database key differently ("+kg+" vs "+ks+"): stored items are never found again")
+	// the caller's key names an item only inside its namespace: in Get/Set it may flow into the namespaced key and
+	// nowhere else (a map or cache indexed by the bare key is shared by every namespace: ftp.pemkey and smtp.pemkey collide)
+	for _, fn := range []*ssa.Function{g, s} {
+		if len(fn.Params) < 2 {
+			continue
+		}
+		key := fn.Params[1]
+		bad := ""
+		seen := map[ssa.Value]bool{}
+		var walk func(v ssa.Value)
+		walk = func(v ssa.Value) {
+			if seen[v] || v.Referrers() == nil {
+				return
+			}
+			seen[v] = true
+			for _, r := range *v.Referrers() {
+				switch x := r.(type) {
+				case *ssa.Convert:
+					walk(x)
+				case *ssa.ChangeType:
+					walk(x)
+				case *ssa.DebugRef:
+				case *ssa.Call:
+					if bi, ok := x.Call.Value.(*ssa.Builtin); ok && bi.Name() == "append" {
+						// append(ns, key...): fine when the destination is the namespace
+						if len(x.Call.Args) == 2 && x.Call.Args[1] == v && strings.Contains(Render(x.Call.Args[0]), ".ns") {
+							continue
+						}
+					}
+					if hf := x.Call.StaticCallee(); hf != nil {
+						if InRepo(hf) && hf.Signature.Recv() != nil && isByteSlice(x.Type()) {
+							continue // key derivation helper (compared above)
+						}
+						if pk := PkgOf(hf); pk == "fmt" || pk == "log" || strings.HasSuffix(pk, "go-logging") {
+							continue
+						}
+					}
+					bad = p.InstrPos(x) + " `" + RenderN(x, 2) + "`"
+				case *ssa.BinOp:
+					if x.Op == token.ADD && strings.Contains(Render(x), ".ns") {
+						continue
+					}
+					bad = p.InstrPos(x) + " `" + RenderN(x, 2) + "`"
+				case *ssa.MakeClosure:
+					// captured by the transaction closure: its uses inside
+					if cf, ok := x.Fn.(*ssa.Function); ok {
+						for i, b := range x.Bindings {
+							if b == v && i < len(cf.FreeVars) {
+								walk(cf.FreeVars[i])
+							}
+						}
+					}
+				default:
+					if in, ok := r.(ssa.Instruction); ok {
+						bad = p.InstrPos(in) + " `" + strings.TrimSpace(in.String()) + "`"
+					}
+				}
+			}
+		}
+		walk(key)
+		c.Check(bad == "", "storage-key-derivation", shortFn(fn)+" uses the bare key only to build the namespaced key", p.Pos(fn.Pos()), "", "the caller's un-namespaced key is used directly ("+bad+"): anything indexed by it is shared between namespaces – services that use the same item name (ftp, smtp and ldap all store pemkey/pemcert) read each other's identity, so a service presents a different certificate depending on which service was built first")
+	}
 }
 
 func c18Token(c *Ctx) {
